@@ -1019,6 +1019,151 @@ func settingsProblem(tok Token, v interface{}, err error, panicked string, lt, r
 	return ""
 }
 
+// ---------------------------------------------------------------- entry independence
+
+type indepValue struct {
+	Name string
+	Qty  int
+	Tags []string
+	Sub  *uni.Inner
+	Arr  [2][]int
+}
+
+// TestEntryIndependence: containers with several entries whose values are objects, maps standing in for objects,
+// lists or arrays; later entries carry fewer members or shorter lists than earlier ones. Every entry must decode to
+// what the same token gives when it is decoded on its own at top level: nothing of one entry may show in another.
+func TestEntryIndependence(t *testing.T) {
+	hio.RegisterName("Indep", (*indepValue)(nil))
+	cls := `c5"Indep"5{s4"name"s3"qty"s4"tags"s3"sub"s3"arr"}`
+	cls2 := `c5"Indep"2{s4"name"s4"tags"}`
+	// entry tokens; %CLS% is replaced by a class definition the first time a class is needed in a stream
+	entries := []string{
+		`o0{s1"a"7a2{s1"p"s1"q"}m2{uX1uYs2"in"}a2{a3{123}a1{9}}}`,
+		`o1{s1"b"a1{s1"r"}}`, // class 1 = the two-member class: qty, sub, arr absent
+		`o0{s1"c"0a{}na2{a1{5}a{}}}`,
+		`m1{s4"name"s1"d"}`,
+		`m3{s4"name"s1"e"s4"tags"a1{s1"t"}s3"sub"m1{uX4}}`,
+		`o1{s1"f"a3{s1"u"s1"v"s1"w"}}`,
+	}
+	type container struct {
+		name string
+		typ  reflect.Type
+		wrap func(items []string) string
+		get  func(v reflect.Value, i int) reflect.Value
+	}
+	vt := reflect.TypeOf(indepValue{})
+	containers := []container{
+		{"map[string]T", reflect.MapOf(reflect.TypeOf(""), vt), func(items []string) string {
+			s := fmt.Sprintf("m%d{", len(items))
+			for i, it := range items {
+				s += fmt.Sprintf(`s2"k%d"%s`, i, it)
+			}
+			return s + "}"
+		}, func(v reflect.Value, i int) reflect.Value { return v.MapIndex(reflect.ValueOf(fmt.Sprintf("k%d", i))) }},
+		{"map[string]*T", reflect.MapOf(reflect.TypeOf(""), reflect.PtrTo(vt)), func(items []string) string {
+			s := fmt.Sprintf("m%d{", len(items))
+			for i, it := range items {
+				s += fmt.Sprintf(`s2"k%d"%s`, i, it)
+			}
+			return s + "}"
+		}, func(v reflect.Value, i int) reflect.Value { return v.MapIndex(reflect.ValueOf(fmt.Sprintf("k%d", i))).Elem() }},
+		{"map[int]T from a list", reflect.MapOf(reflect.TypeOf(0), vt), func(items []string) string {
+			return fmt.Sprintf("a%d{%s}", len(items), strings.Join(items, ""))
+		}, func(v reflect.Value, i int) reflect.Value { return v.MapIndex(reflect.ValueOf(i)) }},
+		{"[]T", reflect.SliceOf(vt), func(items []string) string {
+			return fmt.Sprintf("a%d{%s}", len(items), strings.Join(items, ""))
+		}, func(v reflect.Value, i int) reflect.Value { return v.Index(i) }},
+		{"[3]T", reflect.ArrayOf(3, vt), func(items []string) string {
+			return fmt.Sprintf("a%d{%s}", len(items), strings.Join(items, ""))
+		}, func(v reflect.Value, i int) reflect.Value { return v.Index(i) }},
+		{"map[string][2]T", reflect.MapOf(reflect.TypeOf(""), reflect.ArrayOf(2, vt)), func(items []string) string {
+			s := fmt.Sprintf("m%d{", len(items))
+			for i, it := range items {
+				s += fmt.Sprintf(`s2"k%d"a1{%s}`, i, it)
+			}
+			return s + "}"
+		}, func(v reflect.Value, i int) reflect.Value {
+			return v.MapIndex(reflect.ValueOf(fmt.Sprintf("k%d", i))).Index(0)
+		}},
+	}
+	k := 0
+	for _, c := range containers {
+		for a := range entries {
+			for b := range entries {
+				for c3 := -1; c3 < len(entries); c3 += 3 {
+					k++
+					if ev.S.NShards > 1 && k%ev.S.NShards != ev.S.Shard {
+						continue
+					}
+					idx := []int{a, b}
+					if c3 >= 0 {
+						idx = append(idx, c3)
+					}
+					if c.name == "[3]T" && len(idx) > 3 {
+						continue
+					}
+					var items []string
+					for _, i := range idx {
+						items = append(items, entries[i])
+					}
+					for _, simple := range []bool{true} {
+						wire := cls + cls2 + c.wrap(items)
+						canon := fmt.Sprintf("%s entries=%v", c.name, idx)
+						ev.S.Begin("entry-independence", canon)
+						o := decodeInto(wire, c.typ, simple)
+						problem := ""
+						switch {
+						case o.panicked != "":
+							problem = "decoder panicked on a well-formed stream: " + o.panicked
+						case o.err != nil:
+							problem = fmt.Sprintf("well-formed stream rejected: %v", o.err)
+						default:
+							for pos, i := range idx {
+								alone := decodeInto(cls+cls2+entries[i], vt, simple)
+								if alone.err != nil || alone.panicked != "" {
+									problem = fmt.Sprintf("entry %d cannot be decoded on its own: %v %s", i, alone.err, alone.panicked)
+									break
+								}
+								var got reflect.Value
+								func() {
+									defer func() {
+										if e := recover(); e != nil {
+											problem = fmt.Sprintf("entry at position %d is missing from the result: %v", pos, e)
+										}
+									}()
+									got = c.get(o.val, pos)
+								}()
+								if problem != "" {
+									break
+								}
+								if !got.IsValid() {
+									problem = fmt.Sprintf("entry at position %d is missing from the result", pos)
+									break
+								}
+								w, g := uni.FromGo(alone.val), uni.FromGo(got)
+								if !ref.EqualOpt(w, g, ref.Options{NilIsEmpty: true}) {
+									problem = fmt.Sprintf("entry at position %d differs from the same token decoded on its own: at %s; alone %s, in the container %s", pos, ref.Diff(w, g, ref.Options{NilIsEmpty: true}), w, g)
+									break
+								}
+							}
+						}
+						ev.S.Case("entry-independence", canon, true, "indep="+c.name)
+						if problem != "" {
+							if os.Getenv("VERIF_TRIAGE") != "" {
+								fmt.Printf("TRIAGE %s | %s wire=%q\n", trunc(problem), canon, wire)
+								continue
+							}
+							ev.S.Violation("entry-independence", "TestEntryIndependence", canon+" wire="+wire, problem, nil)
+							t.Fatalf("%s\n=> %s", canon, problem)
+						}
+					}
+				}
+			}
+		}
+	}
+	ev.S.Exhaustive("entry-independence", true)
+}
+
 func TestFinding(t *testing.T) {
 	key := ev.FindingKey()
 	if r, ok := reproducers[key]; ok {
